@@ -111,6 +111,7 @@ type partition struct {
 	// slice aliasing ("option slicealias"): slice carrier (a slice parameter, or a pointer parameter to a slice)
 	// -> representative carrier whose header (array, offset, length, capacity) it shares
 	sliceClass map[int]int
+	scen       *Scenario
 }
 
 // sliceCarrierElem: element type when the parameter is a slice, or a pointer to a slice
@@ -427,6 +428,23 @@ func (v *Verifier) VerifyFunc(pkg *ssa.Package, c *Contract, pool *Pool) (res *F
 		return
 	}
 	parts := v.partitions(fn, c)
+	if len(c.Scenarios) > 0 {
+		// every alias partition is analysed once under the base parametrisation and once under each scenario
+		var all []partition
+		for _, p := range parts {
+			all = append(all, p)
+			for _, sc := range c.Scenarios {
+				q := p
+				q.scen = sc
+				if q.label != "" {
+					q.label += ";"
+				}
+				q.label += sc.Label
+				all = append(all, q)
+			}
+		}
+		parts = all
+	}
 	for _, p := range parts {
 		res.Partitions = append(res.Partitions, p.label)
 		func() {
@@ -736,7 +754,17 @@ func (v *Verifier) runPartition(pkg *ssa.Package, fn *ssa.Function, c *Contract,
 	for _, gp := range c.GhostParams {
 		st.ghosts[gp] = F.Var("gp!"+gp, SInt)
 	}
-	for _, l := range c.Lets {
+	lets := c.Lets
+	if p.scen != nil {
+		lets = nil
+		for _, l := range c.Lets {
+			if !p.scen.Free[l.Name] {
+				lets = append(lets, l)
+			}
+		}
+		lets = append(lets, p.scen.Set...)
+	}
+	for _, l := range lets {
 		le, err := parseSpec(l.Name)
 		if err != nil {
 			unsup("let %q: %v", l.Name, err)
